@@ -184,6 +184,34 @@ pub fn exec(func: &str, a: &mut Args) -> String {
                 format!("{} ;; {}", pre, fvox(&vox))
             }
         }
+        // tribox3 <mins> <maxs> <a> <b> <c> → 0/1 : query::details::intersection_test_aabb_triangle
+        "tribox3" => {
+            use crate::p3::bounding_volume::Aabb as Aabb3;
+            use crate::p3::shape::Triangle as Tri3;
+            let mins = d3::p(a); let maxs = d3::p(a); let pa = d3::p(a); let pb = d3::p(a); let pc = d3::p(a);
+            let r = crate::p3::query::details::intersection_test_aabb_triangle(&Aabb3::new(mins, maxs), &Tri3::new(pa, pb, pc));
+            b(r).to_string()
+        }
+        // vox3grid <res> <fm> <mesh> → ni nj nk origin scale g<codes>: the whole 3-D VoxelizedVolume, no observed input
+        "vox3grid" => {
+            use crate::p3::transformation::voxelization::{VoxelizedVolume as VV3, VoxelValue as V};
+            let res = a.u() as u32; let fm = a.u();
+            let (pts, idx) = mesh(a);
+            let vol = VV3::voxelize(&pts, &idx, res, fill(fm), false);
+            let [ni, nj, nk] = vol.resolution();
+            let mut g = String::with_capacity((ni * nj * nk) as usize + 1);
+            g.push('g');
+            for k in 0..nk { for j in 0..nj { for i in 0..ni {
+                let c = match vol.voxel(i, j, k) {
+                    V::PrimitiveUndefined => '0', V::PrimitiveOutsideSurfaceToWalk => '1', V::PrimitiveInsideSurfaceToWalk => '2',
+                    V::PrimitiveOnSurfaceNoWalk => '3', V::PrimitiveOnSurfaceToWalk1 => '4', V::PrimitiveOnSurfaceToWalk2 => '5',
+                    V::PrimitiveOutsideSurface => '6', V::PrimitiveInsideSurface => '7', V::PrimitiveOnSurface => '8' };
+                g.push(c);
+            } } }
+            let scale = vol.scale();
+            let vs: VoxelSet = vol.into();
+            format!("{} {} {} {} {} {}", ni, nj, nk, d3::fp(&vs.origin), ff(scale), g)
+        }
         // voxelize2 <res> <fill> <npts> pts <nedges> edges → origin scale n (i j s)*
         "voxelize2" => {
             use crate::p2::transformation::voxelization::{FillMode as FM2, VoxelSet as VS2};
@@ -545,6 +573,36 @@ pub fn gen_fill3(r: &mut Rng, lat: bool, it: usize) -> (&'static str, u32, (Vec<
     }
 }
 
+/// boxes and triangles for the 3-D cell predicate: unit cells and generic boxes; triangles through corners / along edges /
+/// in face planes, degenerate (point, segment), tiny, grazing a corner or an edge, large ones cutting through, far away
+fn gen_box_tri(r: &mut Rng, lat: bool) -> ([f64; 3], [f64; 3], [[f64; 3]; 3]) {
+    let (c, h): ([f64; 3], [f64; 3]) = if r.bool() { ([r.range(0, 6) as f64, r.range(0, 6) as f64, r.range(0, 6) as f64], [0.5; 3]) }
+        else if lat { ([r.lattice(16, 2), r.lattice(16, 2), r.lattice(16, 2)], [*r.pick(&[0.25, 0.5, 1.0, 1.5]), *r.pick(&[0.25, 0.5, 1.0, 2.0]), *r.pick(&[0.5, 1.0])]) }
+        else { ([r.uniform(-5.0, 5.0), r.uniform(-5.0, 5.0), r.uniform(-5.0, 5.0)], [r.logu(0.01, 10.0), r.logu(0.01, 10.0), r.logu(0.01, 10.0)]) };
+    let mn = [c[0] - h[0], c[1] - h[1], c[2] - h[2]]; let mx = [c[0] + h[0], c[1] + h[1], c[2] + h[2]];
+    let corner = |r: &mut Rng| [if r.bool() { mn[0] } else { mx[0] }, if r.bool() { mn[1] } else { mx[1] }, if r.bool() { mn[2] } else { mx[2] }];
+    let rnd = |r: &mut Rng| if lat { [c[0] + r.lattice(12, 2), c[1] + r.lattice(12, 2), c[2] + r.lattice(12, 2)] }
+        else { [c[0] + r.uniform(-3.0, 3.0) * h[0], c[1] + r.uniform(-3.0, 3.0) * h[1], c[2] + r.uniform(-3.0, 3.0) * h[2]] };
+    let dirv = |r: &mut Rng| if lat { [*r.pick(&[1.0, -1.0, 0.5, 2.0, 0.0]), *r.pick(&[1.0, -1.0, 0.5, -2.0, 0.0]), *r.pick(&[1.0, -1.0, 0.0, 3.0])] }
+        else { [r.uniform(-1.0, 1.0), r.uniform(-1.0, 1.0), r.uniform(-1.0, 1.0)] };
+    let add = |p: [f64; 3], d: [f64; 3], t: f64| [p[0] + t * d[0], p[1] + t * d[1], p[2] + t * d[2]];
+    let tri = match r.below(10) {
+        0 | 1 => [rnd(r), rnd(r), rnd(r)],
+        2 => { let p = corner(r); let d = dirv(r); let e = dirv(r); [p, add(p, d, 1.0), add(p, e, 1.0)] }       // a vertex on a corner
+        3 => { let p = corner(r); let d = dirv(r); let e = dirv(r); let m = add(add(p, d, -1.0), e, -0.5); [m, add(p, d, 2.0), add(p, e, 2.0)] } // corner inside / on the triangle
+        4 => { let p = rnd(r); match r.below(3) { 0 => [p, p, p], 1 => { let q = rnd(r); [p, q, q] } _ => { let q = rnd(r); [p, add(p, [q[0] - p[0], q[1] - p[1], q[2] - p[2]], 0.5), q] } } } // degenerate
+        5 => { let p = corner(r); let e = *r.pick(&[1e-16, 5e-17, 2e-16, 1e-15, 1e-12]); [p, add(p, dirv(r), e), add(p, dirv(r), e)] }                       // tiny at a corner
+        6 => { let ax = r.below(3) as usize; let v = *r.pick(&[mn[ax], mx[ax], c[ax], mn[ax] - h[ax], mx[ax] + 0.25 * h[ax]]);                      // in a plane parallel to a face
+               let mut t = [rnd(r), rnd(r), rnd(r)]; for q in t.iter_mut() { q[ax] = v; } t }
+        7 => { let p = corner(r); let d = dirv(r); let e = dirv(r); let n = [d[1] * e[2] - d[2] * e[1], d[2] * e[0] - d[0] * e[2], d[0] * e[1] - d[1] * e[0]];
+               let s = r.uniform(-1e-9, 1e-9); let p = add(p, n, s);                                                                               // plane grazing a corner
+               [add(add(p, d, -2.0), e, -1.0), add(p, d, 3.0), add(p, e, 3.0)] }
+        8 => { let s = 20.0; let d = dirv(r); let e = dirv(r); let p = rnd(r); [add(add(p, d, -s), e, -s), add(p, d, s), add(p, e, s)] }               // large triangle through / past the box
+        _ => [corner(r), rnd(r), rnd(r)],
+    };
+    (mn, mx, tri)
+}
+
 pub fn gen(r: &mut Rng, thorough: bool) -> Vec<(String, String)> {
     let n = if thorough { 240 } else { 60 };
     let mut v = Vec::new();
@@ -608,6 +666,23 @@ pub fn gen(r: &mut Rng, thorough: bool) -> Vec<(String, String)> {
         if it % 8 == 3 && res <= 16 { v.push(("acd3".into(), format!("{} {} {} {} {} {} {}", 4, res, 1, hx(0.01), 2, 2, hmesh(&m)))); }
     }
     if std::env::var("VERIF_FAMILIES").is_ok() { eprintln!("C18 fill3 families: {:?}", fam); }
+    // ---- 3-D voxelizer model (ModelVox3.lean): the triangle/box predicate and whole grids ----
+    let nb3 = if thorough { 6000 } else { 1200 };
+    for it in 0..nb3 {
+        let (mn, mx, t) = gen_box_tri(r, it % 2 == 0);
+        let h3 = |p: &[f64; 3]| format!("{} {} {}", hx(p[0]), hx(p[1]), hx(p[2]));
+        v.push(("tribox3".into(), format!("{} {} {} {} {}", h3(&mn), h3(&mx), h3(&t[0]), h3(&t[1]), h3(&t[2]))));
+    }
+    let nv3 = if thorough { 300 } else { 40 };
+    for it in 0..nv3 {
+        let lat = it % 2 == 0;
+        let (res, m) = match it % 5 {
+            0 | 1 => { let (m, _) = gen_mesh(r, lat); (*r.pick(&[4u32, 6, 8, 10]), m) }
+            2 => { let (m, _) = gen_tie_mesh(r, lat, (it / 5) % 4, (it / 20) % 3, 8); (*r.pick(&[4u32, 5, 8]), m) }
+            _ => { let (_, res, m) = gen_fill3(r, lat, it + it / 5); (res.min(12), m) }
+        };
+        v.push(("vox3grid".into(), format!("{} {} {}", res, [1, 2, 0, 1][(it / 5) % 4], hmesh(&m))));
+    }
     // ---- 2-D voxelizer model (ModelVox.lean) ----
     let nb = if thorough { 6000 } else { 1200 };
     for it in 0..nb {
